@@ -8,7 +8,7 @@ Extraction Language OCaml.
 Extraction "walmodel.ml" Byte.of_N Byte.to_N
   crc_update varint_enc varint_dec rec_marshal rec_unmarshal
   encode_recs decode_whole decode_files decode_each
-  read_all read_all_w verify repair_files zero_tail
+  read_all read_all_dec read_all_w read_all_w_dec verify verify_dec repair_files zero_tail
   crash_image_list set_byte
   w_run w_files select_files file_bytes
   interp_result prefix_ok rares_eqb locate frame_len count_synced no_crc_coincidence
